@@ -11,7 +11,7 @@ CONSTANTS MUTANT
 
 Fields == <<"env", "signedkind", "sigvals", "type", "spec", "deleg", "exp", "ts", "ver">>
 
-DateClasses == {"ok", "leap_ok", "nonstr", "null", "noZ", "noT", "trailing", "wrongsep", "missing_field", "extra_field", "empty",
+DateClasses == {"ok", "leap_ok", "nonstr", "null", "noZ", "noT", "trailing", "wrongsep", "missing_field", "extra_field", "empty", "tz_offset",
                 "feb30", "month13", "day00", "hour25", "min60",          \* canonical spelling of an instant that does not exist
                 "unpadded", "lower_tz", "nonascii_digits", "h24", "sec60", "year0"}
 ClassesOf(f) ==
